@@ -2,7 +2,7 @@ from __future__ import annotations
 
 import warnings
 
-from pydantic import BaseModel, Field, model_validator
+from pydantic import BaseModel, ConfigDict, Field, model_validator
 
 from ._valid_values import (
     VALID_AXIS_TYPES,
@@ -31,6 +31,11 @@ class Axis(BaseModel):
     the data from pixel space into real world units. The associated, optional `scaled_unit`
     field specifies the output unit after applying `scale` to the data.
     """
+
+    # JSON has no literals for infinities and NaN, and pydantic would write them as `null`,
+    # silently dropping e.g. an unbounded `min`/`max`. Write the constants `Infinity`, `-Infinity`
+    # and `NaN` instead, as zarr does for attributes, so that the JSON text reads back unchanged.
+    model_config = ConfigDict(ser_json_inf_nan="constants")
 
     name: str = Field(..., description="Name of the corresponding node property")
     type: AxisType | None = Field(
